@@ -119,6 +119,10 @@ func c15Parse(c *core.Case, o *core.Outcome) {
 		ns := 1 + r.IntN(6)
 		limConc := 1 + r.IntN(50)
 		maxDur := time.Duration(1+r.IntN(3600)) * time.Second
+		if r.IntN(12) == 0 {
+			// zero is mapped like any other value
+			maxDur = 0
+		}
 		maxIter := uint64(r.IntN(1000))
 		ignore := r.IntN(2) == 0
 		maxF, maxFR := -1, -1
@@ -629,6 +633,11 @@ func c15RunPlan(c *core.Case, o *core.Outcome) {
 			// a parameter whose value is the empty string is still a parameter: set, and empty
 			plan[k].keys[fmt.Sprintf("VERIF_EMPTY_%d", k%2)] = ""
 		}
+		if r.IntN(3) == 0 {
+			// a name the operating system refuses as an environment variable: reported, and the other
+			// parameters of the stage are exported all the same
+			plan[k].keys["VERIF=REFUSED"] = "x"
+		}
 		if withDefaults && r.IntN(2) == 0 {
 			// several stages share the default section's parameters (rate stages: the evaluation is the observation point)
 			plan[k].users, plan[k].inherit = false, true
@@ -694,6 +703,9 @@ func c15RunPlan(c *core.Case, o *core.Outcome) {
 			evalStages = append(evalStages, i)
 			mu.Unlock()
 			for k, v := range plan[i].keys {
+				if strings.Contains(k, "=") {
+					continue
+				}
 				if got, set := os.LookupEnv(k); got != v || !set {
 					note("during rate evaluation of stage %d parameter %s=%q (set=%v), expected %q", i, k, got, set, v)
 				}
@@ -731,6 +743,9 @@ func c15RunPlan(c *core.Case, o *core.Outcome) {
 						return ""
 					}
 					for k, v := range plan[j].keys {
+						if strings.Contains(k, "=") {
+							continue
+						}
 						if got, ok := os.LookupEnv(k); !ok || got != v {
 							return fmt.Sprintf("a body of users stage %d saw parameter %s=%q (set=%v), expected %q", j, k, got, ok, v)
 						}
